@@ -252,6 +252,7 @@ func (r *Runner) complete(slot int, in Vals) Vals {
 	v["Z"] = 0
 	v["V"] = zeroCode("V")
 	v["W"] = zeroCode("W")
+	v["O"] = 0
 	v["pl"] = 0
 	for f, c := range in {
 		v[f] = c
@@ -441,7 +442,7 @@ func (r *Runner) header(createClass string) ev {
 		switch f {
 		case "K", "S":
 			d["ix"], d["uq"] = 1, 1
-		case "A", "U", "F", "N", "T", "Z":
+		case "A", "U", "F", "N", "T", "Z", "O":
 			if !r.cfg.Plain {
 				d["ix"] = 1
 			}
@@ -763,6 +764,8 @@ func probeValue(f string, code int, ptype string) interface{} {
 		v = uniZ[code]
 	case "V":
 		v = uniV[code]
+	case "O":
+		v = uniO[code]
 	default:
 		panic("probeValue " + f)
 	}
